@@ -101,6 +101,35 @@ class TupleV:
         return 'TupleV(%r)' % (self.items,)
 
 
+class NTupleV(TupleV):
+    """An instance of a named tuple class: a tuple whose positions also have
+    names; *cls* is the NTClass or the repo class derived from it."""
+    __slots__ = ('names', 'cls')
+
+    def __init__(self, items, names, cls):
+        TupleV.__init__(self, items)
+        self.names = tuple(names)
+        self.cls = cls
+
+    def __eq__(self, other):
+        return TupleV.__eq__(self, other)
+
+    def __hash__(self):
+        return TupleV.__hash__(self)
+
+
+class NTClass:
+    """What collections.namedtuple(...) returns."""
+
+    def __init__(self, name, fields, defaults=()):
+        self.name = name
+        self.fields = tuple(fields)
+        self.defaults = tuple(defaults)     # values of the last fields
+
+    def __repr__(self):
+        return '<namedtuple %s%r>' % (self.name, self.fields)
+
+
 class SetV:
     def __init__(self, items=()):
         self.items = []
@@ -208,6 +237,14 @@ class ClassRef:
 
     def is_subclass(self, other):
         return other in self.mro()
+
+    def nt_base(self):
+        """The named tuple class this class derives from, if any."""
+        for c in self.mro():
+            for b in c.bases:
+                if isinstance(b, NTClass):
+                    return b
+        return None
 
     def ext_bases(self):
         out = []
